@@ -112,7 +112,7 @@ def coq_op(o):
         return "OFormatted 500 %s" % coq_string(formatted_body(500, "error"))
     if k == "cookie2":
         return "OCookie %s" % coq_string(o[1] + "=" + o[2])
-    if k == "badstatus":
+    if k in ("badstatus", "formatfail"):
         return "ORefused"
     raise ValueError(k)
 
@@ -167,13 +167,27 @@ def server_cases(ck, rng):
                 if ck.tier == "thorough" or rng.random() < 0.25:
                     cases.append({"kind": "server", "mws": [{"prio": 0, "pre": [a], "post": [c]}], "ops": [b],
                                   "throw": False, "onerror": None})
+    # onFormat closure that throws for the message "boom": a failed success()/error()/format() call
+    # must not leave its status behind (and a working closure must produce the same envelope)
+    FAILS = [["formatfail", 'error("boom", 503)'], ["formatfail", 'success(null, "boom", 201)'],
+             ["formatfail", 'format(503, "boom", null)']]
+    for f in FAILS:
+        for a in small:
+            cases.append({"kind": "server", "mws": [], "ops": [f, a], "throw": False, "onerror": None, "onformat": True})
+            cases.append({"kind": "server", "mws": [], "ops": [["status", 202], f, a], "throw": False, "onerror": None, "onformat": True})
+            cases.append({"kind": "server", "mws": [{"prio": 0, "pre": [a], "post": [f, ["write", "z"]]}], "ops": [], "throw": False,
+                          "onerror": None, "onformat": True})
     n = 150 if ck.tier == "quick" else 2500
     for _ in range(n):
         nm = rng.randint(0, 2)
         mws = [{"prio": rng.choice([-1, 0, 0, 5]), "pre": [rand_op(rng, True) for _ in range(rng.randint(0, 2))],
                 "post": [rand_op(rng, True) for _ in range(rng.randint(0, 2))]} for _ in range(nm)]
         thr = nm == 0 and rng.random() < 0.5
-        cases.append({"kind": "server", "mws": mws, "ops": [rand_op(rng, True) for _ in range(rng.randint(0, 4))],
+        hops = [rand_op(rng, True) for _ in range(rng.randint(0, 4))]
+        onf = rng.random() < 0.4
+        if onf and rng.random() < 0.7:
+            hops.insert(rng.randint(0, len(hops)), rng.choice(FAILS))
+        cases.append({"kind": "server", "mws": mws, "ops": hops, "onformat": onf,
                       "throw": thr, "onerror": [rand_op(rng, True) for _ in range(rng.randint(0, 3))] if thr or rng.random() < 0.3 else None})
     return cases
 
